@@ -502,7 +502,10 @@ Inductive rt_case := EncCase (k : enc_case) | DecCase (k : dec_case) | DecHCase 
                    | DirCase (router : bool) (stale names listing : list string)
                    (* time.Duration.String of a nanosecond count; time.ParseDuration of a text (None: rejected) *)
                    | DurFmt (ns : Z) (text : string)
-                   | DurCase (text : string) (ns : option Z).
+                   | DurCase (text : string) (ns : option Z)
+                   (* the literal body json.Marshal writes for a string; the string json.Unmarshal reads from a literal body *)
+                   | EscCase (s lit : string)
+                   | UnescCase (lit : string) (s : option string).
 
 
 
@@ -582,6 +585,12 @@ Definition rt_case_ok (k : rt_case) : bool :=
     String.eqb (file_name src_max_file_path (if router then src_fname_ops_router else src_fname_ops_cluster) name) fname
   | DirCase router stale names lst => dir_case_ok router stale names lst
   | DurFmt ns text => String.eqb (fmt_duration ns) text
+  | EscCase s lit => String.eqb (escape s) lit
+  | UnescCase lit s => match unescape lit, s with
+                       | Some a, Some b => String.eqb a b
+                       | None, None => true
+                       | _, _ => false
+                       end
   | DurCase text ns => match parse_duration text, ns with
                        | Some a, Some b => Z.eqb a b
                        | None, None => true
